@@ -152,7 +152,7 @@ inline std::vector<OpVal> op_menu(bool thorough, bool with_clear) {
     add(SET_PROTOCOL, {"https", "HTTPS", "file", "b", "ws:", "1x"});
     add(SET_USERNAME, {"", "u", "a:@b"});
     add(SET_PASSWORD, {"", "p"});
-    add(SET_HOST, {"example.org", "h:99", "h:", "1.2.3.4", "1.2.3.4.5", "[::2]", "", "a b", "x/y", "0x10", EACUTE ".x"});
+    add(SET_HOST, {"example.org", "h:99", "h:", "h:65536", "a b:81", "1.2.3.4", "1.2.3.4.5", "[::2]", "", "a b", "x/y", "0x10", EACUTE ".x"});
     add(SET_HOSTNAME, {"h2", "h:99", "", "2.3.4.5", "256.256.256.256", "[1::]", "LOCALHOST"});
     add(SET_PORT, {"", "80", "443", "8080", "1000", "00", "99999", "1x"});
     add(SET_PATHNAME, {"", "/", "//x", "/a/../b", "/a/./b/.c", "\\a", "c d", "/C|/z", "?#"});
@@ -164,7 +164,9 @@ inline std::vector<OpVal> op_menu(bool thorough, bool with_clear) {
     add(SET_USERNAME, {"", "u", "a:@b", EACUTE, " /"});
     add(SET_PASSWORD, {"", "p", ":@/", EACUTE, "%41"});
     add(SET_HOST, {"example.org", "h:99", "h:80", "h:", "1.2.3.4", "1.2.3.4:5", "[::2]", "[::2]:3", "", "a b", "x/y", "x\\y", "x?y",
-                   "x#y", "0x10", "256.0.0.1", "1.2.3.4.5", "foo.09", "LOCALHOST", EACUTE ".x", "h\t2", "u@h", "xn--a"});
+                   "x#y", "0x10", "256.0.0.1", "1.2.3.4.5", "foo.09", "LOCALHOST", EACUTE ".x", "h\t2", "u@h", "xn--a",
+                   // a host setter whose port part is refused, and one whose host part is refused before a port: neither may leave a mark
+                   "h:65536", "h:99999", "h:8x", "a b:81", "[::1::2]:7", "1.2.3.4.5:82"});
     add(SET_HOSTNAME, {"h2", "h:99", "", "2.3.4.5", "[1::]", "a b", "x/y", "x\\y", "0x10", EACUTE ".y", "h\n3", "u@h", ":1", "1.2.3.4.",
                        "[::1", "a%41", "A", "x?y", "x#y", "4294967296"});
     add(SET_PORT, {"", "80", "443", "21", "8080", "0", "00090", "65535", "65536", "99999", "1x", "x", "8\t1", "9", "10", "100", "1000", "10000", "00", "000x"});
